@@ -85,7 +85,11 @@ def g_cmd(d, name, maxvars=3, handlers=None, flags=True, var_kw=None, scripts=Tr
 
 
 def fix_implicit_duplicates(cmds):
-    """DESIGN 4.5: an implicit-write command must not have a case-insensitively equal non-implicit duplicate"""
+    """not needed any more (DESIGN C.6): C02's statement fixes the reading for an implicit-write command that has an equal
+    non-implicit duplicate - the request becomes a WRITE as soon as the typed name equals an implicit-write command, and the
+    command is the first equal name in registration order; the reference model and the library agree on it"""
+    return
+    # (kept for reference)
     seen = {}
     for c in cmds:
         seen.setdefault(ref.upname(c["name"]), []).append(c)
@@ -95,10 +99,11 @@ def fix_implicit_duplicates(cmds):
                 c["implicit"] = 0
 
 
-def g_table(d, nmin=1, nmax=8, **kw):
+def g_table(d, nmin=1, nmax=8, fix_dups=False, **kw):
     n = d.rng(nmin, nmax)
     cmds = [g_cmd(d, g_name(d), **kw) for _ in range(n)]
-    fix_implicit_duplicates(cmds)
+    if fix_dups:
+        fix_implicit_duplicates(cmds)
     return cmds
 
 
